@@ -1,5 +1,5 @@
 SPECIFICATION Spec
-CONSTANTS MaxEv = 6  NoSchedOn = FALSE  OwnDefault = TRUE
+CONSTANTS MaxEv = 6  NoSchedOn = FALSE  OwnDefault = TRUE  FetchOn = FALSE
   Zones <- ZonesC  Vers <- VersT  NF <- NFc  ZoneOf <- ZoneOfC
 CONSTRAINT Bound
 INVARIANT SameOrNone
